@@ -122,15 +122,12 @@ func TestC16(t *testing.T) {
 	rapid.Check(t, func(t *rapid.T) {
 		sch := &Schema{Capacity: rapid.SampledFrom([]int{1, 64, 1024, 16385}).Draw(t, "capacity"), Key: -1}
 		merge := rapid.SampledFrom([]MergeKind{MDefault, MMix, MConcat}).Draw(t, "merge")
-		if merge == MConcat && KFActive("f15-difflen-merge-reorder") {
-			merge = MMix
-		}
 		sch.Cols = []ColSpec{{Name: "expire", Kind: KInt64}, {Name: "s", Kind: KString, Merge: merge}, {Name: "n", Kind: KInt}}
 		mc := NewMachine("C16", sch, column.Options{})
 		defer mc.Close()
 		defer mc.Guard(t)
 		cfg := TxnCfg{Prop: "C16", MaxSteps: 8, Rollback: true, Deletes: true, Inserts: true, Merges: true, OwnUpdates: true, Direct: true,
-			NoStoreOnDel: KFActive("f11-store-and-delete-same-txn"), StringAlphabet: c16Alphabet}
+			NoStoreOnDel: KFActive("f11-store-and-delete-same-txn"), NoOpAfterLenMerge: KFActive("f15-difflen-merge-reorder"), StringAlphabet: c16Alphabet}
 		const sCol = 1
 		sortName := ""
 		nsort := 0
